@@ -57,6 +57,18 @@ def general_case(case):
         text_o = must("dump-valid-tree-again", tim.dump_text, obj, other)
         d = diff(tim.expected_general(desc, other), must("stdlib-read", tim.read_ini, text_o).get("general"))
         check(d is None, "general-depends-on-earlier-dump", lambda: "same object dumped again with main_variant=%r after main_variant=%r: %s" % (other, main, d))
+    # ... and so does an object obtained by LOADING that file: what the file's [general] said is not a request
+    dashed = any(n["uid"] != n["id"] for n in desc["variants"])
+    if abs(desc["tree"]["build_timestamp"]) >= 1:
+        from productmd.treeinfo import TreeInfo
+        loaded = TreeInfo()
+        must("loads", loaded.loads, text)
+        for other in (None, uids[-1]):
+            text_l = must("dump-loaded-tree", tim.dump_text, loaded, other)
+            want_l = tim.expected_general(desc, other)
+            want_l["timestamp"] = str(int(desc["tree"]["build_timestamp"]))
+            d = diff(want_l, must("stdlib-read", tim.read_ini, text_l).get("general"))
+            check(d is None, "general-of-loaded-tree", lambda: "tree loaded from a file written with main_variant=%r, dumped with main_variant=%r: %s" % (main, other, d))
     labels = tim.labels(desc) + (["explicit-main"] if main is not None else []) + (["float-timestamp"] if isinstance(desc["tree"]["build_timestamp"], float) else [])
     mp = [n for n in desc["variants"] if n["uid"] == g["variant"]][0]["paths"]
     labels.append("main-paths:" + "".join(k[0] if k in mp else "-" for k in ("packages", "repository", "source_packages", "source_repository")))
